@@ -136,21 +136,15 @@ pub fn cases_simple(rng: &mut Rng, count: usize, tier: &str, which: &str) -> Vec
                 o.max_records = 2;
             }
         }
-        let f = gen::gen_facts(rng, o);
-        let kindb = match which {
-            "C19" => 1,
-            _ => {
-                if f.has(1) && f.has(118) {
-                    rng.below(2) as u8
-                } else {
-                    0
-                }
-            }
-        };
-        let s = build::script_from_facts(rng, &f, kindb);
-        let w = World::Builder(s);
-        let bl = w.build();
         let mut tags = vec![];
+        let (w, f) = if which == "C19" && rng.chance(1, 2) {
+            let f = gen::gen_facts(rng, o);
+            tags.push("builder");
+            (World::Builder(build::script_from_facts(rng, &f, 1)), f)
+        } else {
+            world::gen_world(rng, o, &mut tags)
+        };
+        let bl = w.build();
         let obs = match which {
             "C02" => {
                 annot_tags(&f, &mut tags);
